@@ -22,16 +22,27 @@ const (
 	rPeriodic            // NewPeriodicReader(recording exporter), interval 1h
 	rPeriodicMs          // NewPeriodicReader(recording exporter), interval 1ms
 	rPeriodicFail        // NewPeriodicReader(recording exporter whose Export always fails), interval 1h
+	// Stock readers that are built but NOT registered with the provider: the
+	// program collects from them and shuts them down directly.
+	rManualOrphan
+	rPeriodicOrphan // NewPeriodicReader(recording exporter), interval 1h
+	rKinds
 )
 
-var readerNames = []string{"manual", "periodic(1h)", "periodic(1ms)", "periodic(1h, failing exporter)"}
+var readerNames = []string{"manual", "periodic(1h)", "periodic(1ms)", "periodic(1h, failing exporter)", "manual(not registered)", "periodic(1h, not registered)"}
+
+func orphan(kind int) bool { return kind == rManualOrphan || kind == rPeriodicOrphan }
+
+// instrument kinds of an "inst" op (MOp.Y); "add" then calls Add or Record.
+var instNames = []string{"Int64Counter", "Float64Counter", "Int64UpDownCounter", "Float64Histogram", "Int64Gauge", "Int64Histogram"}
 
 // MOp is one step of a metric program.
 type MOp struct {
 	K string `json:"k"`           // meter inst add collect flush shutdown rshutdown
 	X int    `json:"x,omitempty"` // meter: slot; inst/add: instrument id; collect/rshutdown: reader index
+	Y int    `json:"y,omitempty"` // inst: instrument kind (instNames)
 	M int    `json:"m,omitempty"` // inst: meter slot of the goroutine (an unfilled slot calls Meter() now), -1 = the meter obtained at construction
-	C int    `json:"c,omitempty"` // collect/flush/shutdown/rshutdown: 0 live context, -1 already cancelled
+	C int    `json:"c,omitempty"` // collect/flush/shutdown/rshutdown/add: context of the call, 0 live, -1 already cancelled, -2 deadline already expired
 	P int    `json:"p,omitempty"`
 }
 
@@ -41,6 +52,7 @@ type MProg struct {
 	Gs      [][]MOp `json:"gs"`
 	Post    []MOp   `json:"post,omitempty"`
 	Runs    int     `json:"runs,omitempty"`
+	Prod    int     `json:"prod,omitempty"` // 1: every reader is built WithProducer(a recording external producer)
 }
 
 // ---------------------------------------------------------------------
@@ -59,6 +71,21 @@ type readerRec struct {
 	mu        sync.Mutex
 	shutdowns []rsd
 	sel       []int64
+	produced  []int64 // calls of the external producer
+}
+
+// Produce makes a readerRec the external metric producer of its reader.
+func (r *readerRec) Produce(context.Context) ([]metricdata.ScopeMetrics, error) {
+	r.mu.Lock()
+	r.produced = append(r.produced, r.clock.Tick())
+	r.mu.Unlock()
+	return nil, nil
+}
+
+func (r *readerRec) producedCalls() []int64 {
+	r.mu.Lock()
+	defer r.mu.Unlock()
+	return append([]int64{}, r.produced...)
 }
 
 func (r *readerRec) selected() {
@@ -188,7 +215,7 @@ func (p MProg) eachOp(fn func(g, i int, op MOp)) {
 func validM(p MProg) bool {
 	ok := len(p.Readers) <= 4 && len(p.Gs) <= 8
 	for _, k := range p.Readers {
-		if k < 0 || k > rPeriodicFail {
+		if k < 0 || k >= rKinds {
 			ok = false
 		}
 	}
@@ -200,7 +227,7 @@ func validM(p MProg) bool {
 				ok = false
 			}
 		case "inst":
-			if _, dup := creator[op.X]; dup || op.X < 0 || op.X > 4096 || op.M > 3 {
+			if _, dup := creator[op.X]; dup || op.X < 0 || op.X > 4096 || op.M > 3 || op.Y < 0 || op.Y >= len(instNames) {
 				ok = false
 			}
 			creator[op.X] = g
@@ -229,8 +256,12 @@ func execMetric(p MProg) (*mhist, func()) {
 		mr := &mreader{kind: k, rec: &readerRec{clock: clock}}
 		rec := mr.rec
 		switch k {
-		case rManual:
-			mr.r = &manualW{sdkmetric.NewManualReader(
+		case rManual, rManualOrphan:
+			var mopts []sdkmetric.ManualReaderOption
+			if p.Prod != 0 {
+				mopts = append(mopts, sdkmetric.WithProducer(rec))
+			}
+			mr.r = &manualW{sdkmetric.NewManualReader(append(mopts,
 				sdkmetric.WithAggregationSelector(func(ik sdkmetric.InstrumentKind) sdkmetric.Aggregation {
 					rec.selected()
 					return sdkmetric.DefaultAggregationSelector(ik)
@@ -238,17 +269,23 @@ func execMetric(p MProg) (*mhist, func()) {
 				sdkmetric.WithTemporalitySelector(func(sdkmetric.InstrumentKind) metricdata.Temporality {
 					rec.selected()
 					return metricdata.CumulativeTemporality
-				})), rec}
+				}))...), rec}
 		default:
 			mr.exp = &recMetricExp{clock: clock, rec: rec, fail: k == rPeriodicFail}
 			iv := time.Hour
 			if k == rPeriodicMs {
 				iv = time.Millisecond
 			}
-			mr.r = &periodicW{sdkmetric.NewPeriodicReader(mr.exp, sdkmetric.WithInterval(iv)), rec}
+			popts := []sdkmetric.PeriodicReaderOption{sdkmetric.WithInterval(iv)}
+			if p.Prod != 0 {
+				popts = append(popts, sdkmetric.WithProducer(rec))
+			}
+			mr.r = &periodicW{sdkmetric.NewPeriodicReader(mr.exp, popts...), rec}
 		}
 		h.readers = append(h.readers, mr)
-		opts = append(opts, sdkmetric.WithReader(mr.r))
+		if !orphan(k) {
+			opts = append(opts, sdkmetric.WithReader(mr.r))
+		}
 	}
 	mp := sdkmetric.NewMeterProvider(opts...)
 	base := mp.Meter("base")
@@ -258,7 +295,7 @@ func execMetric(p MProg) (*mhist, func()) {
 			maxInst = op.X
 		}
 	})
-	insts := make([]metric.Int64Counter, maxInst+1)
+	insts := make([]func(context.Context), maxInst+1)
 	meterNames := []string{"a", "b", "", "a"}
 
 	type handle struct {
@@ -281,10 +318,10 @@ func execMetric(p MProg) (*mhist, func()) {
 				m, hc = slots[op.M].m, slots[op.M].call
 			}
 			rec.Handle = hc
-			insts[op.X], rec.Err = m.Int64Counter(fmt.Sprintf("i%d", op.X))
+			insts[op.X], rec.Err = mkInst(m, op.Y, fmt.Sprintf("i%d", op.X))
 		case "add":
 			if insts[op.X] != nil {
-				insts[op.X].Add(context.Background(), 1)
+				insts[op.X](ctx)
 			} else {
 				rec.Skipped = true
 			}
@@ -338,6 +375,47 @@ func execMetric(p MProg) (*mhist, func()) {
 			_ = r.r.Shutdown(context.Background())
 		}
 	}
+}
+
+// mkInst creates an instrument of the given kind and returns its Add / Record call.
+func mkInst(m metric.Meter, kind int, name string) (func(context.Context), error) {
+	switch kind {
+	case 1:
+		i, err := m.Float64Counter(name)
+		if i == nil {
+			return nil, err
+		}
+		return func(ctx context.Context) { i.Add(ctx, 1.5) }, err
+	case 2:
+		i, err := m.Int64UpDownCounter(name)
+		if i == nil {
+			return nil, err
+		}
+		return func(ctx context.Context) { i.Add(ctx, -1) }, err
+	case 3:
+		i, err := m.Float64Histogram(name)
+		if i == nil {
+			return nil, err
+		}
+		return func(ctx context.Context) { i.Record(ctx, 2.5) }, err
+	case 4:
+		i, err := m.Int64Gauge(name)
+		if i == nil {
+			return nil, err
+		}
+		return func(ctx context.Context) { i.Record(ctx, 7) }, err
+	case 5:
+		i, err := m.Int64Histogram(name)
+		if i == nil {
+			return nil, err
+		}
+		return func(ctx context.Context) { i.Record(ctx, 3) }, err
+	}
+	i, err := m.Int64Counter(name)
+	if i == nil {
+		return nil, err
+	}
+	return func(ctx context.Context) { i.Add(ctx, 1) }, err
 }
 
 func (h *mhist) calls() []*callRec {
@@ -459,7 +537,7 @@ func oracleMetric(h *mhist) ([]vk.Violation, map[string]bool) {
 		if performed > 1 {
 			bad("shutdown_twice", "%s: %d Shutdown calls did not return ErrReaderShutdown, i.e. the reader was shut down more than once", name, performed)
 		}
-		if down && len(st.sd) == 0 {
+		if down && len(st.sd) == 0 && !orphan(r.kind) {
 			bad("not_shut_down", "%s was never shut down although a provider Shutdown with a live context has returned successfully", name)
 		}
 		if r.exp != nil {
@@ -467,7 +545,7 @@ func oracleMetric(h *mhist) ([]vk.Violation, map[string]bool) {
 			if len(esd) > 1 {
 				bad("shutdown_twice", "the exporter of %s was shut down %d times", name, len(esd))
 			}
-			if (down || st.r0 != never) && len(esd) != 1 {
+			if (down && !orphan(r.kind) || st.r0 != never) && len(esd) != 1 {
 				bad("not_shut_down", "the exporter of %s was shut down %d times although its reader / the provider has been shut down with a live context", name, len(esd))
 			}
 			// A PeriodicReader shuts its exporter down as part of its own
@@ -508,13 +586,17 @@ func oracleMetric(h *mhist) ([]vk.Violation, map[string]bool) {
 		case "collect":
 			st := rs[c.X]
 			switch {
-			case c.Start > st.dr || after:
+			case c.Start > st.dr || after && !orphan(h.readers[c.X].kind):
 				cl["collect_after_reader_shutdown"] = true
+				cl["collect_after_shutdown_of_unregistered_reader"] = cl["collect_after_shutdown_of_unregistered_reader"] || orphan(h.readers[c.X].kind)
 				if !isReaderShutdown(c.Err) {
 					bad("collect_after_shutdown", "%s: Collect on reader %d after its own (%s) or the provider's (%s) Shutdown had returned gave %v, documented: ErrReaderShutdown", c, c.X, tstr(st.dr), tstr(d), c.Err)
 				}
 			case c.End < st.any0 && c.End < e0 && c.C == 0 && c.Err == nil:
 				cl["collect_while_up_ok"] = true
+				cl["external_producer_called_by_collect"] = cl["external_producer_called_by_collect"] || len(h.readers[c.X].rec.producedCalls()) > 0
+			case c.End < st.any0 && errors.Is(c.Err, sdkmetric.ErrReaderNotRegistered):
+				cl["collect_on_unregistered_reader"] = true
 			}
 		case "rshutdown":
 			st := rs[c.X]
@@ -527,6 +609,8 @@ func oracleMetric(h *mhist) ([]vk.Violation, map[string]bool) {
 			if c.Start < d {
 				cl["reader_shutdown_directly_before_provider"] = true
 			}
+		case "add":
+			cl["add_or_record_with_done_context"] = cl["add_or_record_with_done_context"] || c.C != 0 && !c.Skipped
 		case "flush", "shutdown":
 			if after {
 				cl[c.K+"_after_shutdown"] = true
@@ -582,13 +666,15 @@ func genRawMOp(conc bool) *rapid.Generator[MOp] {
 			op.X = rapid.IntRange(0, 3).Draw(t, "slot")
 		case "inst":
 			op.M = rapid.IntRange(-1, 3).Draw(t, "slot")
+			op.Y = rapid.IntRange(0, len(instNames)-1).Draw(t, "instrument")
 		case "add":
 			op.X = rapid.IntRange(0, 7).Draw(t, "which")
+			op.C = rapid.SampledFrom([]int{0, 0, 0, 0, -1, -2}).Draw(t, "ctx")
 		case "collect", "rshutdown":
 			op.X = rapid.IntRange(0, 3).Draw(t, "reader")
-			op.C = rapid.SampledFrom([]int{0, 0, 0, -1}).Draw(t, "ctx")
+			op.C = rapid.SampledFrom([]int{0, 0, 0, 0, 0, -1, -2}).Draw(t, "ctx")
 		case "flush", "shutdown":
-			op.C = rapid.SampledFrom([]int{0, 0, -1}).Draw(t, "ctx")
+			op.C = rapid.SampledFrom([]int{0, 0, 0, 0, -1, -1, -2}).Draw(t, "ctx")
 		}
 		if conc {
 			op.P = rapid.IntRange(0, 3).Draw(t, "p")
@@ -606,7 +692,7 @@ func normaliseM(p *MProg) {
 			switch op.K {
 			case "add":
 				if len(mine) == 0 {
-					op.K, op.M = "inst", -1
+					op.K, op.M, op.C = "inst", -1, 0
 				} else {
 					op.X = mine[len(mine)-1-op.X%len(mine)]
 				}
@@ -634,11 +720,13 @@ func genReaders(t *rapid.T) []int {
 	if rapid.IntRange(0, 11).Draw(t, "no_reader") == 0 {
 		return nil
 	}
-	return rapid.SliceOfN(rapid.SampledFrom([]int{rManual, rManual, rPeriodic, rPeriodic, rPeriodicMs, rPeriodicFail}), 1, 3).Draw(t, "readers")
+	return rapid.SliceOfN(rapid.SampledFrom([]int{rManual, rManual, rManual, rPeriodic, rPeriodic, rPeriodic, rPeriodicMs, rPeriodicMs, rPeriodicFail, rPeriodicFail, rManualOrphan, rPeriodicOrphan}), 1, 3).Draw(t, "readers")
 }
 
+func genProd(t *rapid.T) int { return rapid.SampledFrom([]int{0, 0, 1}).Draw(t, "external_producer") }
+
 func genMetricSeq(t *rapid.T) MProg {
-	p := MProg{Readers: genReaders(t)}
+	p := MProg{Readers: genReaders(t), Prod: genProd(t)}
 	p.Gs = [][]MOp{genChunked(t, genRawMOp(false), 15)}
 	normaliseM(&p)
 	return p
@@ -655,7 +743,20 @@ func metricInfo(p MProg, cl map[string]bool) vk.Info {
 	info.ClassIf(len(p.Readers) == 0, "no_reader")
 	info.ClassIf(len(p.Readers) >= 2, "two_or_more_readers")
 	info.Classes = dedup(info.Classes)
-	info.NonTrivial = len(p.Readers) > 0 && cl["provider_shut_down"] && cl["telemetry_after_shutdown"]
+	registered := 0
+	for _, k := range p.Readers {
+		if !orphan(k) {
+			registered++
+		}
+	}
+	info.ClassIf(p.Prod != 0 && len(p.Readers) > 0, "readers_with_external_producer")
+	p.eachOp(func(_, _ int, op MOp) {
+		if op.K == "inst" {
+			info.Class("instrument:" + instNames[op.Y])
+		}
+	})
+	info.Classes = dedup(info.Classes)
+	info.NonTrivial = registered > 0 && cl["provider_shut_down"] && cl["telemetry_after_shutdown"]
 	return info
 }
 
@@ -675,8 +776,8 @@ func runMetricSeq(p MProg) ([]vk.Violation, vk.Info) {
 func TestMetricLifecycle(t *testing.T) {
 	vk.Run(t, vk.Spec[MProg]{
 		Property: "C15", Check: "metric_lifecycle",
-		Rule: "generated op lists (1-60 ops: Meter / create Int64Counter / Add / reader.Collect / provider ForceFlush / provider Shutdown / reader.Shutdown directly, with live or already-cancelled contexts, repeated) on a MeterProvider with 0-3 readers drawn from ManualReader, PeriodicReader(recording exporter, 1h) and PeriodicReader(recording exporter, 1ms); " +
-			"non-trivial = at least one reader, a provider Shutdown with a live context returned nil/ErrReaderShutdown and an Add / instrument creation / Collect follows it; distinct = distinct case encodings",
+		Rule: "generated op lists (1-60 ops: Meter / create Int64Counter / Add / reader.Collect / provider ForceFlush / provider Shutdown / reader.Shutdown directly, with live or already-cancelled contexts, repeated) on a MeterProvider with 0-3 readers drawn from ManualReader, PeriodicReader(recording exporter, 1h), PeriodicReader(recording exporter, 1ms), PeriodicReader(failing exporter) and a ManualReader / PeriodicReader that is NOT registered with the provider, optionally all built WithProducer(recording producer); six instrument kinds (Add and Record); contexts live, cancelled or past their deadline (also for Add / Record); " +
+			"non-trivial = at least one registered reader, a provider Shutdown with a live context returned nil/ErrReaderShutdown and an Add / instrument creation / Collect follows it; distinct = distinct case encodings",
 		Quick: 3000, Thorough: 40000,
 		Gen: genMetricSeq, Run: runMetricSeq,
 		CaseTimeout: 30 * time.Second,
